@@ -1,12 +1,15 @@
 """C18 - BMCI estimates are the importance-weighted statistics of the
 database (DESIGN.md section 3, C18).
 
-Small part: every database of <=3 (quick) / <=4 (thorough) entries over a
-small (y, x) alphabet in every order, each covariance, each observation of a
-lattice (on the entries, half-way, 10^3 away), each x2_max.
-Large part: three structured 5000-entry databases in four orders.
+Small part: every database of a few entries over a small (y, x) alphabet in
+every order, each covariance, each observation of a lattice (on the entries,
+half-way, far away), each x2_max; 1 and 2 channels over a full lattice, 3..10
+channels over five structured vectors and in several array representations.
+Large part: structured 5000-entry databases in four orders and several array
+representations.
 Oracle: checks/c18_oracle.py (direct weighted sums in numpy.longdouble).
 """
+import functools
 import itertools
 import sys
 
@@ -20,24 +23,47 @@ from checks import c18_oracle as oracle                   # noqa: E402
 PROP = "C18"
 LEVEL = "exploration"
 RULE = ("small part: every multiset of n entries (y, x) in every distinct "
-        "order, n<=3 quick / n<=4 thorough; 1 channel: y in {0,1,2,10}, x in "
-        "{0,1,5}; 2 channels: y in {0,1,2,10}^2 for n<=2, y in {(0,0),(1,0),"
-        "(1,1),(10,2)} (ties along both pruning axes) for n>=3, plus (2,1),"
-        "(10,10) for n=3 thorough; x covariances [1], [0.25], [4] / diag(1,4),"
-        " [[1,.5],[.5,1]], all but [4] also x1e-3; x 9 / 10 observations (on "
-        "the lattice, half-way, ~10^3 away) x x2_max in {-1,0,0.5,2,10,1e6}. "
-        "Large part: 3 structured 5000-entry databases (1 channel ramp; 10 "
-        "channels with covariance eigenvalues 1e-2..1e4; 6 distinct y with "
-        "constant x) x 4 orders x 6-7 observations x the same x2_max. One "
-        "case = (ordered database, covariance, observation, x2_max); "
-        "predict, weights, cdf and predict_quantiles (tau in {0,.1,.5,.9,1}) "
-        "are all judged. Non-trivial = at least two entries with distinct x "
+        "order. 1 channel (n<=3 quick / n<=4 thorough): y in {0,1,2,10}, x in "
+        "{0,1,5}; 2 channels (same n): y in {0,1,2,10}^2 for n<=2, y in "
+        "{(0,0),(1,0),(1,1),(10,2)} (ties along both pruning axes) for n>=3, "
+        "plus (2,1),(10,10) for n=3 thorough; x covariances [1], [0.25], [4] "
+        "/ diag(1,4), [[1,.5],[.5,1]], all but [4] also x1e-3; x 9 / 10 "
+        "observations (on the lattice, half-way, ~10^3 away). m = 3, 8, 10 "
+        "channels quick / m = 3..10 thorough (n<=2 quick / n<=3 thorough): y "
+        "in {0, float32(0.1) e_1, (1,..,1), (0,1,2,10,0,1,..), 10 e_m}, x in "
+        "{1,5}; x covariances diag(ev), H diag(ev) H (H the reflection along "
+        "(1,..,m)), ev = m values 1e-2..1e4; x 9 observations (the five "
+        "vectors, two half-way, (1,..,1)+0.4 e_1, 1010 e_1); x array "
+        "representation of y: plain (C-ordered float64), Fortran-ordered, "
+        "float32, thorough also a view strided along both axes. "
+        "x2_max in {-1,0,0.5,2,10,1e6} everywhere; the further ways of asking "
+        "for the unrestricted mode {argument omitted, int -1, -1e-300} in "
+        "addition for n<=2 with 1 or >=3 channels (quick) / for n<=3 "
+        "(thorough) and in the large part. "
+        "Large part: 6 structured 5000-entry databases (1 channel ramp; 3, 8, "
+        "9, 10 channels with the smallest of the covariance eigenvalues "
+        "1e-2..1e4; 6 distinct y with constant x; y and observations rounded "
+        "to float32 values) x 4 orders x the array representations of the "
+        "tier x 6-7 observations x all 9 x2_max. "
+        "One case = (ordered database in one representation, "
+        "covariance, observation, x2_max); predict, weights, cdf and "
+        "predict_quantiles (tau in {0,.1,.5,.9,1}) are all judged; a failure "
+        "that the plain representation of the same case does not show is "
+        "reported under <key>/<representation>. "
+        "Non-trivial = at least two entries with distinct x "
         "carry non-zero weight, or the window leaves out at least one entry, "
         "or no entry has non-zero weight (NaN path). Cases are distinct by "
         "construction.")
 ASSUMPTIONS = [
     "decided on the listed finite lattices only; larger databases only for "
-    "the three structured families and four orders each",
+    "the six structured families and four orders each",
+    "array representations of y other than C-ordered float64 only for >= 3 "
+    "channels in the small part and in the large part (which has 1, 2, 3, 8, "
+    "9 and 10 channels); x, the covariance and the observations are always "
+    "C-ordered float64 arrays, the observations float32-representable "
+    "wherever they are meant to coincide with a float32 entry",
+    "an omitted x2_max is judged as the unrestricted mode (the statement "
+    "gives predict() etc. without x2_max as the complete weighted sums)",
     "chi-square of an entry = (y - y_i)^T S^-1 (y - y_i); a weight is "
     "'non-zero' when exp(-chi2/2) is a normal IEEE double (chi2/2 <= 700) "
     "and 'zero' when it underflows to 0.0 (chi2/2 >= 746); no case has its "
@@ -54,12 +80,58 @@ ASSUMPTIONS = [
 ]
 
 X_VALUES = (0.0, 1.0, 5.0)
+X_WIDE = (1.0, 5.0)
 Y_LATTICE = (0.0, 1.0, 2.0, 10.0)
 # 2-channel sub-lattices for n >= 3: ties along both pruning axes ((1,0) for
 # diag(1,4), (1,-1) for the correlated covariance) and a distant entry
 Y2_CORE4 = ((0.0, 0.0), (1.0, 0.0), (1.0, 1.0), (10.0, 2.0))
 Y2_CORE6 = Y2_CORE4 + ((2.0, 1.0), (10.0, 10.0))
+# exact in float32 but not dyadic: the mean of two entries is then no float32
+TENTH32 = float(np.float32(0.1))
 X2_MAX = (-1.0, 0.0, 0.5, 2.0, 10.0, 1e6)
+# further ways of asking for the unrestricted mode; None = argument omitted
+X2_UNRESTRICTED = (None, -1, -1e-300)
+CHANNELS = {"quick": (1, 2, 3, 8, 10), "thorough": tuple(range(1, 11))}
+CHUNK = {1: 48, 2: 40, 3: 12, 4: 5}      # multisets per shard
+LARGE_N = 5000
+
+# how the database y is handed to BMCI (the values are the same)
+PLAIN = "plain"
+REPRESENTATIONS = {
+    PLAIN: lambda y: y,
+    "fortran-ordered-y": lambda y: np.array(y, order="F"),
+    "float32-y": lambda y: y.astype(np.float32),
+    "strided-view-y": lambda y: np.repeat(np.repeat(y, 2, 0), 2, 1)[::2, ::2],
+}
+
+
+def representations(tier):
+    return [r for r in REPRESENTATIONS
+            if tier == "thorough" or r != "strided-view-y"]
+
+
+def householder_spd(eigenvalues):
+    """Q diag(ev) Q^T with Q the reflection along (1, 2, ..., m)."""
+    m = len(eigenvalues)
+    u = np.arange(1.0, m + 1)
+    q = np.eye(m) - 2 * np.outer(u, u) / (u @ u)
+    s = q @ np.diag(eigenvalues) @ q.T
+    return (s + s.T) / 2
+
+
+def wide_vectors(m):
+    i = np.arange(m)
+    return [np.zeros(m), TENTH32 * (i == 0), np.ones(m),
+            np.array(Y_LATTICE)[i % 4], 10.0 * (i == m - 1)]
+
+
+def wide_observations(m):
+    v = wide_vectors(m)
+    e1 = 1.0 * (np.arange(m) == 0)
+    return np.array(v + [v[2] / 2, (v[3] + v[4]) / 2, v[2] + 0.4 * e1,
+                         1010.0 * e1])
+
+
 BASE_COVS = {1: ([[1.0]], [[0.25]]),
              2: ([[1.0, 0.0], [0.0, 4.0]], [[1.0, 0.5], [0.5, 1.0]])}
 COVS = {m: [np.array(c) * f for f in (1.0, 1e-3) for c in cs]
@@ -70,11 +142,16 @@ OBS = {1: np.array([[0.0], [1.0], [2.0], [10.0], [0.5], [1.5], [6.0],
        2: np.array([[0.0, 0.0], [1.0, 1.0], [2.0, 1.0], [10.0, 2.0],
                     [10.0, 10.0], [0.5, 0.5], [1.5, 0.5], [6.0, 1.0],
                     [1010.0, 1010.0], [1010.0, 0.0]])}
-CHUNK = {1: 48, 2: 40, 3: 12, 4: 5}      # multisets per shard
-LARGE_N = 5000
+for _m in range(3, 11):
+    _ev = 10.0 ** np.linspace(-2, 4, _m)
+    COVS[_m] = [np.diag(_ev), householder_spd(_ev)]
+    OBS[_m] = wide_observations(_m)
 
 
 def entry_types(m, n, tier):
+    if m >= 3:
+        return [(tuple(v.tolist()), x) for v in wide_vectors(m)
+                for x in X_WIDE]
     if m == 1:
         ys = [(a,) for a in Y_LATTICE]
     elif n <= 2:
@@ -84,18 +161,29 @@ def entry_types(m, n, tier):
     return [(y, x) for y in ys for x in X_VALUES]
 
 
+def max_entries(m, tier):
+    return (3 if m <= 2 else 2) + (tier == "thorough")
+
+
+def x2_alphabet(m, n, tier):
+    if n <= 3 if tier == "thorough" else (n <= 2 and m != 2):
+        return X2_MAX + X2_UNRESTRICTED
+    return X2_MAX
+
+
 def multisets(types, n):
     return itertools.combinations_with_replacement(range(len(types)), n)
 
 
 def shards(tier, seed):
     out = []
-    for m in (1, 2):
-        for n in range(1, (3 if tier == "quick" else 4) + 1):
+    for m in CHANNELS[tier]:
+        for n in range(1, max_entries(m, tier) + 1):
             total = sum(1 for _ in multisets(entry_types(m, n, tier), n))
             out.extend(("small", tier, m, n, a, min(a + CHUNK[n], total))
                        for a in range(0, total, CHUNK[n]))
-    out.extend(("large", name, perm) for name in LARGE for perm in PERMS)
+    out.extend(("large", tier, name, perm) for name in LARGE
+               for perm in PERMS)
     return out
 
 
@@ -113,15 +201,15 @@ def attempt(f, *args):
         return exc
 
 
-def per_observation(f, obs, x2, unpack):
+def per_observation(f, obs, unpack):
     """f on the whole batch; if that raises, one observation at a time so
     that an exception is attributed to the observation that causes it."""
-    got = attempt(f, obs, x2)
+    got = attempt(f, obs)
     if not isinstance(got, Exception):
         return unpack(got)
     out = []
     for i in range(len(obs)):
-        got = attempt(f, obs[i:i + 1], x2)
+        got = attempt(f, obs[i:i + 1])
         out.append(got if isinstance(got, Exception) else unpack(got)[0])
     return out
 
@@ -183,13 +271,15 @@ class Database:
             self.cache[key] = ex, share
         return self.cache[key]
 
-    def check(self, order, x2_values):
+    def check(self, order, x2_values, representation):
         """Yields, per x2_max, [(flags, violations) per observation] for the
-        database in the given entry order; flags = (non-trivial, NaN path,
-        something left out, best entry in the subnormal band)."""
+        database in the given entry order and array representation; flags =
+        (non-trivial, NaN path, something left out, best entry in the
+        subnormal band)."""
         from typhon.retrieval.bmci import BMCI
-        y, x = self.y[list(order)], self.x[list(order)]
-        bmci = attempt(BMCI, y.copy(), x.copy(), self.metric.s.copy())
+        y = REPRESENTATIONS[representation](self.y[list(order)])
+        assert np.array_equal(y.astype(float), self.y[list(order)])
+        bmci = attempt(BMCI, y, self.x[list(order)], self.metric.s.copy())
         if isinstance(bmci, Exception):
             pos = None
             broken = ("exception/init/" + type(bmci).__name__, None,
@@ -202,17 +292,18 @@ class Database:
             if pos is None:
                 yield x2, [(NO_FLAGS, [broken])] * len(self.obs)
                 continue
+            xargs = () if x2 is None else (x2,)
             pred = per_observation(
-                bmci.predict, self.obs, x2,
+                lambda o: bmci.predict(o, *xargs), self.obs,
                 lambda r: list(zip(flat(r[0]), flat(r[1]))))
             qs = per_observation(
-                lambda o, c: bmci.predict_quantiles(o, oracle.TAUS, c),
-                self.obs, x2, lambda r: [flat(row) for row in r])
-            yield x2, [self.judge(bmci, pos, oi, x2, pred[oi], qs[oi])
+                lambda o: bmci.predict_quantiles(o, oracle.TAUS, *xargs),
+                self.obs, lambda r: [flat(row) for row in r])
+            yield x2, [self.judge(bmci, pos, oi, x2, xargs, pred[oi], qs[oi])
                        for oi in range(len(self.obs))]
 
-    def judge(self, bmci, pos, oi, x2, pred, q):
-        win = attempt(bmci.weights, self.obs[oi], x2)
+    def judge(self, bmci, pos, oi, x2, xargs, pred, q):
+        win = attempt(bmci.weights, self.obs[oi], *xargs)
         if isinstance(win, Exception):
             return NO_FLAGS, [("exception/weights/" + type(win).__name__,
                                None, repr(win)[:120], "")]
@@ -220,7 +311,7 @@ class Database:
         if not 0 <= i_l <= i_u <= self.n:
             return NO_FLAGS, [("weights/window-outside-database",
                                [0, self.n], [i_l, i_u], "")]
-        cdf = attempt(bmci.cdf, self.obs[oi], x2)
+        cdf = attempt(bmci.cdf, self.obs[oi], *xargs)
         if not isinstance(cdf, Exception):
             cdf = (flat(cdf[0]), flat(cdf[1]))
         chi2, weights = self.per_entry(oi)
@@ -235,26 +326,44 @@ class Database:
                 bool(left), kept_ex.band), bad
 
 
-def record(res, db, order, x2_values, describe):
-    """Runs one ordered database, counts its cases and records violations;
-    those that end up in the report (the first few per key) are confirmed by
-    running that x2_max a second time."""
-    for x2, results in db.check(order, x2_values):
-        if any(res.vio_per_key.get(b[0], 0) < res.MAX_PER_KEY
-               for _, bad in results for b in bad):
-            _, again = next(db.check(order, [x2]))
-            if [[b[0] for b in bad] for _, bad in again] != \
-                    [[b[0] for b in bad] for _, bad in results]:
-                res.error("NONDETERMINISM %r" % (describe(0, x2),))
-        for oi, ((nontrivial, nan, pruned, band), bad) in enumerate(results):
-            res.case(nontrivial=nontrivial)
-            res.count("nan_path_cases", int(nan))
-            res.count("cases_with_entries_left_out", int(pruned))
-            if band:
-                res.error("best entry in the subnormal band: %r"
-                          % (describe(oi, x2),))
-            for key, exp, obs, msg in bad:
-                res.violation(key, describe(oi, x2), exp, obs, msg)
+def keyed(key, rep, plain_keys):
+    """A failure that the plain arrays of the same case do not show has a
+    root cause of its own: the representation becomes part of the key."""
+    return key if rep == PLAIN or key in plain_keys else key + "/" + rep
+
+
+def record(res, db, order, x2_values, reps, describe):
+    """Runs one ordered database in each representation (the plain one
+    first), counts its cases and records violations; those that end up in
+    the report (the first few per key) are confirmed by running that x2_max
+    a second time."""
+    assert reps[0] == PLAIN
+    plain = {}
+    for rep in reps:
+        for x2, results in db.check(order, x2_values, rep):
+            raw = [[b[0] for b in bad] for _, bad in results]
+            keys = [[keyed(k, rep, plain.get((x2, oi), ())) for k in ks]
+                    for oi, ks in enumerate(raw)]
+            if rep == PLAIN:
+                plain.update(((x2, oi), ks) for oi, ks in enumerate(raw))
+            if any(res.vio_per_key.get(k, 0) < res.MAX_PER_KEY
+                   for ks in keys for k in ks):
+                _, again = next(db.check(order, [x2], rep))
+                if [[b[0] for b in bad] for _, bad in again] != raw:
+                    res.error("NONDETERMINISM %r" % (describe(0, x2, rep),))
+            for oi, ((nontrivial, nan, pruned, band), bad) in \
+                    enumerate(results):
+                res.case(nontrivial=nontrivial)
+                res.count("nan_path_cases", int(nan))
+                res.count("cases_with_entries_left_out", int(pruned))
+                if band:
+                    res.error("best entry in the subnormal band: %r"
+                              % (describe(oi, x2, rep),))
+                for key, (_, exp, obs, msg) in zip(keys[oi], bad):
+                    res.violation(key, describe(oi, x2, rep), exp, obs, msg)
+            res.add("x2_max_values", repr(x2))
+        res.add("representations", rep)
+    res.add("channel_counts", db.y.shape[1])
 
 
 # --------------------------------------------------------------------------
@@ -278,18 +387,21 @@ def run_small(shard):
     metrics = [oracle.Metric(s) for s in COVS[m]]
     ty = np.array([t[0] for t in types], float)
     tables = [[mt.exponents(ty, o) for o in OBS[m]] for mt in metrics]
+    reps = representations(tier) if m >= 3 else [PLAIN]
+    x2_values = x2_alphabet(m, n, tier)
     last = None
     for ms in itertools.islice(multisets(types, n), start, stop):
         orders = order_representatives(ms)
         for ci, metric in enumerate(metrics):
             db = small_database(m, types, ms, metric, tables[ci])
             for order in orders:
-                def describe(oi, x2, order=order, ci=ci):
+                def describe(oi, x2, rep, order=order, ci=ci):
                     return dict(part="small", m=m, cov=ci, obs=oi, x2_max=x2,
+                                representation=rep,
                                 db=[[list(types[ms[i]][0]), types[ms[i]][1]]
                                     for i in order])
-                record(res, db, order, X2_MAX, describe)
-                last = describe(len(OBS[m]) - 1, X2_MAX[-1])
+                record(res, db, order, x2_values, reps, describe)
+                last = describe(len(OBS[m]) - 1, x2_values[-1], reps[-1])
         res.count("ordered_databases", len(orders))
         res.count("multisets", 1)
     res.sample(last)
@@ -312,15 +424,6 @@ def order_representatives(ms):
 # large part
 # --------------------------------------------------------------------------
 
-def householder_spd(eigenvalues):
-    """Q diag(ev) Q^T with Q the reflection along (1, 2, ..., m)."""
-    m = len(eigenvalues)
-    u = np.arange(1.0, m + 1)
-    q = np.eye(m) - 2 * np.outer(u, u) / (u @ u)
-    s = q @ np.diag(eigenvalues) @ q.T
-    return (s + s.T) / 2
-
-
 def large_ramp():
     i = np.arange(LARGE_N)
     return (0.002 * i.reshape(-1, 1), np.array(X_VALUES)[i % 3],
@@ -329,12 +432,12 @@ def large_ramp():
                       [-1000.0]]))
 
 
-def large_channels():
+def large_channels(m):
     i = np.arange(LARGE_N).reshape(-1, 1)
-    j = np.arange(10).reshape(1, -1)
+    j = np.arange(m).reshape(1, -1)
     y = 0.05 * ((i * (2 * j + 1) + j * j) % 41) + 0.001 * (i // 41) * (j == 0)
     x = ((7 * i.ravel()) % 11).astype(float)
-    s = householder_spd([1e-2, 0.1, 1, 1, 2, 5, 10, 100, 1e3, 1e4])
+    s = householder_spd([1e-2, 0.1, 1, 1, 2, 5, 10, 100, 1e3, 1e4][:m])
     obs = np.array([y[1234], y[0], (y[100] + y[101]) / 2, y.min(axis=0),
                     y.max(axis=0) + 0.3, y[17] + 1000.0])
     return y, x, s, obs
@@ -348,29 +451,42 @@ def large_duplicates():
                       [6.0, 1.0], [1010.0, 1010.0]]))
 
 
-LARGE = {"ramp": large_ramp, "channels": large_channels,
-         "duplicates": large_duplicates}
+LARGE = {"ramp": large_ramp, "duplicates": large_duplicates,
+         "channels": functools.partial(large_channels, 10),
+         "channels9": functools.partial(large_channels, 9),
+         "channels8": functools.partial(large_channels, 8),
+         "channels3": functools.partial(large_channels, 3)}
 PERMS = {"identity": lambda i: i,
          "reversed": lambda i: i[::-1],
          "stride1231": lambda i: (i * 1231) % LARGE_N,     # gcd(1231, n) = 1
          "interleaved": lambda i: np.concatenate([i[0::2], i[1::2][::-1]])}
 
 
-def run_large(shard):
-    _, name, perm = shard
-    res = driver.ShardResult()
+def large_database(name):
+    """The family rounded to float32 values, so that every representation
+    holds the same numbers and an observation "on an entry" stays on it."""
     y, x, s, obs = LARGE[name]()
-    db = Database(y, x, oracle.Metric(s), obs)
+    y, obs = (a.astype(np.float32).astype(float) for a in (y, obs))
+    return Database(y, x, oracle.Metric(s), obs)
+
+
+def run_large(shard):
+    _, tier, name, perm = shard
+    res = driver.ShardResult()
+    db = large_database(name)
     order = PERMS[perm](np.arange(LARGE_N))
     assert sorted(order.tolist()) == list(range(LARGE_N))
 
-    def describe(oi, x2):
+    def describe(oi, x2, rep):
         return dict(part="large", db=name, perm=perm, obs=oi, x2_max=x2,
-                    built_by="checks.c18_bmci.LARGE[db] / PERMS[perm]",
-                    entries=LARGE_N, channels=y.shape[1])
-    record(res, db, order, X2_MAX, describe)
+                    representation=rep, entries=LARGE_N,
+                    channels=db.y.shape[1], built_by="checks.c18_bmci."
+                    "large_database(db) / PERMS[perm]")
+    x2_values = X2_MAX + X2_UNRESTRICTED
+    reps = representations(tier)
+    record(res, db, order, x2_values, reps, describe)
     res.count("ordered_databases", 1)
-    res.sample(describe(0, X2_MAX[-1]))
+    res.sample(describe(0, x2_values[-1], reps[-1]))
     return res
 
 
@@ -381,6 +497,7 @@ def run_shard(shard):
 
 
 def replay(case):
+    rep = case.get("representation", PLAIN)    # replays older than the field
     if case["part"] == "small":
         m = case["m"]
         types = [(tuple(y), x) for y, x in case["db"]]
@@ -388,15 +505,19 @@ def replay(case):
                             oracle.Metric(COVS[m][case["cov"]]))
         order = range(len(types))
     else:
-        y, x, s, obs = LARGE[case["db"]]()
-        db = Database(y, x, oracle.Metric(s), obs)
+        db = large_database(case["db"])
         order = PERMS[case["perm"]](np.arange(LARGE_N))
-    _, results = next(db.check(order, [case["x2_max"]]))
-    bad = results[case["obs"]][1]
+
+    def failures(representation):
+        _, results = next(db.check(order, [case["x2_max"]], representation))
+        return results[case["obs"]][1]
+    bad = failures(rep)
     if not bad:
         return dict(ok=True)
-    return dict(ok=False, key=bad[0][0], expected=bad[0][1],
-                observed=bad[0][2], all_keys=[b[0] for b in bad],
+    plain_keys = [b[0] for b in (bad if rep == PLAIN else failures(PLAIN))]
+    keys = [keyed(b[0], rep, plain_keys) for b in bad]
+    return dict(ok=False, key=keys[0], expected=bad[0][1],
+                observed=bad[0][2], all_keys=keys,
                 observation=db.obs[case["obs"]])
 
 
